@@ -38,6 +38,28 @@ def check(run):
         run.violation("crash:" + lines[idx], "harness crashed/aborted in URLPattern", lines=[lines[idx]], detail=dict(crash, variant="regex"))
         if crash.get("answered", 0) < len(lines):
             outs = outs + ["fail"] * (len(lines) - len(outs))
+    # dictionary inputs: the search / hash component input the result must report = "process search / hash for init" (type url) of the
+    # given value - Model/PatternCanon.processSearch / processHash, proved equal to the Standard's steps in Props/C15 (driver pat.canon
+    # p.search / p.hash).  known_findings fixed C14 aed9b75: match() used to strip a second '?'
+    want_dict = {}
+    dq = []
+    for l in lines:
+        toks = l.split()
+        for i in range(5, len(toks) - 2, 3):
+            if toks[i] == "i":
+                for kv in toks[i + 1].split(","):
+                    if "=" in kv:
+                        k, v = kv.split("=", 1)
+                        if k in ("search", "hash") and (k, v) not in want_dict:
+                            want_dict[(k, v)] = None
+                            dq.append((k, v))
+    if dq:
+        ans, dcrash = lib.run_lines(lib.driver_path(), [f"pat.canon p.{k} {v} 75" for k, v in dq])
+        if dcrash:
+            run.oblige("corr:dictionary inputs (driver)", False, str(dcrash)[:300])
+        else:
+            for (k, v), a in zip(dq, ans):
+                want_dict[(k, v)] = a[3:] if a.startswith("ok ") else None
     built = 0
     hook_ok = True
     types = {}
@@ -71,6 +93,17 @@ def check(run):
                 if p.get(key, "same") != "same":
                     run.violation(f"shortcut:{l}:{pi}", f"pattern {desc!r} probe {pi}: shortcut and regular expression disagree: "
                                   f"{ptxt.split(key + '=')[1][:200]}", lines=[l])
+            toks = l.split()
+            if e == "some" and toks[5 + 3 * pi] == "i":
+                for kv in toks[6 + 3 * pi].split(","):
+                    if "=" in kv:
+                        k, v = kv.split("=", 1)
+                        if k in ("search", "hash") and want_dict.get((k, v)) is not None:
+                            run.extra["dictionary_inputs_compared"] = run.extra.get("dictionary_inputs_compared", 0) + 1
+                            got1 = hx(p["res"][k]["input"])
+                            if got1 != want_dict[(k, v)]:
+                                run.violation(f"dictinput:{l}:{pi}", f"pattern {desc!r} probe {pi}: dictionary input {k}={unhx(v)!r}: reported {k} "
+                                              f"input {unhx(got1)!r}, 'process {k} for init' gives {unhx(want_dict[(k, v)])!r}", lines=[l])
             if e == "some" and "url" in p and p["url"] != "unparsable":
                 want = p["url"].split(",")
                 got = [hx(p["res"][k]["input"]) for k in patlib.KEYS]
